@@ -138,6 +138,32 @@ func genExtra(thorough bool, apool []Auth, emit func(Step), emitSession func(...
 			mkx(reqs[1], d3, "server", 1, 2), mkx(reqs[0], d3, "server", 1, 1), mkx(reqs[0], nil, "direct", 2, 1))
 	}
 
+	// (viii) Compose lists with nil entries (credentials the application did not configure): before, between and after the
+	// writers, alone, in the default; the other entries are applied all the same
+	absent := Writer{T: "absent"}
+	cpool := []Writer{{T: "basic", U: "u", P: "p:q"}, {T: "apikey", Name: "X-Key", In: "header", P: tok(1)}, {T: "apikey", Name: "k", In: "query", P: tok(2)}, {T: "bearer", P: tok(4)}}
+	var lists [][]Writer
+	lists = append(lists, []Writer{absent}, []Writer{absent, absent})
+	for _, w1 := range cpool {
+		lists = append(lists, []Writer{absent, w1}, []Writer{w1, absent}, []Writer{absent, w1, absent})
+		for _, w2 := range cpool {
+			lists = append(lists, []Writer{w1, absent, w2}, []Writer{absent, w1, w2})
+		}
+	}
+	for li, l := range lists {
+		for _, def := range [][]Writer{nil, {{T: "bearer", P: tok(6)}}} {
+			for _, tr := range []string{"direct", "server"} {
+				if tr == "server" && !thorough && li%3 != 0 {
+					continue
+				}
+				emit(Step{Op: l, Def: def, Media: "none", Transport: tr, Auths: apool})
+				if def == nil {
+					emit(Step{Def: l, Media: "none", Transport: tr, Auths: apool}) // the list as transport-wide default
+				}
+			}
+		}
+	}
+
 	// Debug switched on and off between requests that carry header credentials; base path replaced
 	for _, op := range hdrOps[:4] {
 		for _, def := range hdrDefs {
